@@ -137,3 +137,7 @@ package debian
 //@ lemma c20-range-equal [C20] uses c20-equal: forall vr *VersionRange, v1, v2 *Version :: vr != nil && v1 != nil && v2 != nil && wfRange(vr) && (forall i int :: 0 <= i && i < len(vr.constraints) ==> vr.constraints[i].version != nil && (vr.constraints[i].operator == "=" || vr.constraints[i].operator == "!=" || vr.constraints[i].operator == "<" || vr.constraints[i].operator == "<=" || vr.constraints[i].operator == ">" || vr.constraints[i].operator == ">=" || vr.constraints[i].operator == ">>" || vr.constraints[i].operator == "<<")) && v1.Compare(v2) == 0 ==> ((forall i int :: 0 <= i && i < len(vr.constraints) ==> satisfiesConstraint(v1, vr.constraints[i])) == (forall i int :: 0 <= i && i < len(vr.constraints) ==> satisfiesConstraint(v2, vr.constraints[i])))
 // ... and the set a range without != accepts is convex in the order
 //@ lemma c20-range-convex [C20] uses c20-convex: forall vr *VersionRange, a, b, d *Version :: vr != nil && a != nil && b != nil && d != nil && wfRange(vr) && (forall i int :: 0 <= i && i < len(vr.constraints) ==> vr.constraints[i].version != nil && (vr.constraints[i].operator == "=" || vr.constraints[i].operator == "!=" || vr.constraints[i].operator == "<" || vr.constraints[i].operator == "<=" || vr.constraints[i].operator == ">" || vr.constraints[i].operator == ">=" || vr.constraints[i].operator == ">>" || vr.constraints[i].operator == "<<") && vr.constraints[i].operator != "!=") && a.Compare(b) <= 0 && b.Compare(d) <= 0 && (forall i int :: 0 <= i && i < len(vr.constraints) ==> satisfiesConstraint(a, vr.constraints[i])) && (forall i int :: 0 <= i && i < len(vr.constraints) ==> satisfiesConstraint(d, vr.constraints[i])) ==> (forall i int :: 0 <= i && i < len(vr.constraints) ==> satisfiesConstraint(b, vr.constraints[i]))
+
+// ---- the registered name (the VERS evaluator and the CLI select behaviour by it)
+//@ func (*Ecosystem).Name
+//@   ensures result == "debian"   [C04 C15 C17]
